@@ -1,6 +1,7 @@
 """C05 Storage physics."""
 import random
 from ..comp import storage as ST
+from ..comp import storageread as SR
 
 ID = 'C05'
 P = 'EAO.Properties.C05'
@@ -17,7 +18,8 @@ THEOREMS = [
     (P, 'EAO.C05.storage_wf', 'the built problem is well-formed (sizes, column indices, mapping variables, names, nodes), incl. the empty window'),
     (P, 'EAO.C05.old_witness_now_rejected', 'the witness of the repaired defect F-05d is infeasible for the repaired rows'),
 ]
-PARTIAL = ['the equality of the reported charge/discharge columns with -x_in / -x_out is covered by the read-out correspondence and the oracle, not by a theorem', 'level theorems assume 0 <= end_level <= size, which the constructor does not check (end_level > size is accepted by the code and feasible with the last level above size)']
+THEOREMS = THEOREMS + SR.THEOREMS_C05_READOUT
+PARTIAL = ['level theorems assume 0 <= end_level <= size, which the constructor does not check (end_level > size is accepted by the code and feasible with the last level above size)']
 COMPONENTS = ['storage builder vs Storage.setup_optim_problem (cost, bounds, rows in order, mapping)', 'storage read-out (fill level, charge, discharge) vs Storage.fill_level / io.extract_output', 'block start positions for tick block sizes vs pandas']
 RULE = ('storages over (size, rates, efficiency, start/end level, inflow, three costs, price, 1|2 nodes, windows, blocks, both MIP options, grids with unequal steps (DST), several units; number FORMS: every numeric parameter whose value is whole is handed to the constructor as Python int / np.int64 / np.int32 / float / np.float64 and whole-valued price series as int64 / int32 / float64 arrays (market series also as lists of ints), drawn per parameter from the seed while model and oracle keep the exact values; focus stream with whole size / start level next to a fractional end level and vice versa, whole rates, costs, inflow, holding limit, mostly without inflow and blocks), each embedded in a small portfolio with a market per node and optimised; '
         'non-trivial = solved with non-zero charge and discharge; distinct by case hash')
@@ -63,6 +65,10 @@ def scenarios(seed, tier):
         c = PE.gen_case(r1, oracle=True, atype='Storage', kind=r1.choice(['freq', 'per', 'perdur', 'freq']))
         c['focus']['args'].pop('cost_store', None)
         yield 'pe%d' % i, {'_stream': 'pe', 'case': c}
+    # the storage at the first / a middle / the last position of a portfolio with other assets; end level inside, above, below [0, size] (comp/storageread.py)
+    rnd5 = random.Random(seed * 7919 + 5 + 300007)
+    for i in range(n // 6):
+        yield 'ro%d' % i, {'_stream': 'readout', 'case': SR.gen_case(random.Random(rnd5.getrandbits(48)))}
 
 
 def run_pe(case):
@@ -172,4 +178,9 @@ def run_case(case, drv):
         return run_pe(case['case'])
     if case.get('_stream') == 'scaled':
         return run_scaled(case)
+    if case.get('_stream') == 'readout':
+        r = SR.run_case(case['case'], drv)
+        r['nontrivial'] = bool(r.get('solved'))
+        r['features'] = ['stream:readout'] + list(r.get('features', []))
+        return r
     return ST.run_case(case, drv)
